@@ -2,11 +2,45 @@
   Fanout: model of the subscriber fan-out of `NxscopeHandler` (nxscope.py): `_stream_thread`
   body (one decoded stream frame → group the samples per enabled channel → put each non-empty
   group on every queue subscribed to that channel, under the queue lock), `stream_sub`,
-  `stream_unsub`, and the enable vector the client reports (`ch_is_enabled`).
+  `stream_unsub`, the enable vector the client reports (`ch_is_enabled`), the DEATH of the stream
+  thread (an exception inside the thread's target ends the thread for good: `thread.py::_thread_loop`
+  does not catch), and — in `Sys` below — the stream-frame queue between the receive thread and the
+  stream thread (`CommHandler._q_stream`) with `stream_start` / `stream_stop`.
   A sample is identified by a number (its position in the device's output); the decoding of
-  sample contents is C04's business.
+  sample contents is C04's business (`tagged` / `arrivals` below number the decoded samples).
+
+  WHAT AN OP LIST MEANS (linearisation).  The code has three threads: the receive thread (puts
+  stream frames on `_q_stream`), the stream thread (takes one frame, decodes it, tests
+  `ch_is_enabled` once per sample under the CHANNELS lock, then — under the QUEUE lock — puts the
+  groups on the subscriber queues) and the application thread(s) (`stream_sub` / `stream_unsub`
+  under the queue lock; `channels_write` assigns the enable vector under the channels lock).  An
+  execution is described by the op list obtained by ordering
+    * every `sub` / `unsub` at the moment it holds the queue lock,
+    * every frame at the moment the stream thread holds the queue lock for its fan-out (a frame
+      that delivers nothing or that kills the thread: at the moment it is taken from `_q_stream`),
+    * every `setEnabled` at the moment `en_now` is assigned under the channels lock.
+  Both locks are mutual-exclusion locks (lock table: `Gen.Locks`, property C12), so these moments are
+  totally ordered and the sub/unsub/fan-out critical sections do not overlap: with respect to
+  subscriptions a frame IS atomic.  With respect to the enable vector it is atomic only if no
+  `setEnabled` falls between the enabled-tests of two samples of the same frame (the tests happen
+  before, and outside, the queue lock).  If one does — after the `k`-th sample — the code behaves as
+  the op list in which the frame is split there: `frame fl (ss.take k), setEnabled v, frame 0 (ss.drop k)`
+  (with every sub/unsub that happened meanwhile moved in front of the first part: a subscription
+  change commutes with `setEnabled` and with a frame part that has not yet fanned out), up to the
+  grouping: the code puts ONE group per channel for the whole frame, the split history two.
+  `C08.frame_split` proves that splitting a frame changes no queue's flattened content, so every
+  theorem about flattened queue contents (`received`) transfers to such executions.
+  Pre-emption inside a critical section and the internals of `queue.Queue` / `Lock` are outside the
+  model (CPython).
+
+  "SINCE THE SUBSCRIPTION" is therefore modelled as "PROCESSED since the subscription": a frame that
+  was received before `stream_sub` returned but is still waiting in `_q_stream` (or is being decoded)
+  is delivered to the new queue; `stream_start` does not drain `_q_stream`, so frames left there by a
+  `stream_stop` are delivered after the next `stream_start` (`Sys` below models that backlog).
 -/
 import NxsModel.Bytes
+import NxsModel.Route
+import NxsModel.Stream
 namespace Nxs
 namespace Fanout
 
@@ -21,15 +55,28 @@ structure St where
   queues : List (Nat × List (List Nat))    -- queue id ↦ the groups put on it, oldest first
   nextQ : Nat := 0
   ovf : Nat := 0                           -- `_ovf_cntr`
+  dead : Bool := false                     -- the stream thread's target raised: the thread has ended
   deriving DecidableEq, Repr
 
 def St.init (n : Nat) : St := { enabled := List.replicate n false, subs := List.replicate n [], queues := [] }
 
+/-- the state after `connect()` to a device that reports the enable vector `en` (channels may be
+    enabled already: left enabled by a previous client, or by the firmware) -/
+def St.initEn (en : List Bool) : St := { enabled := en, subs := List.replicate en.length [], queues := [] }
+
 inductive Op where
+  /-- the stream thread processes a stream frame that decodes to these flags and samples -/
   | frame (flags : Nat) (ss : List Smp)
+  /-- the stream thread takes a stream frame on which the decoder raises (truncated sample,
+      unknown sample type, …; an unknown channel id is `frame` with `chan ≥ chmax`) -/
+  | badFrame
   | sub (ch : Nat)
+  /-- `stream_sub(-(k+1))`: Python's negative index, i.e. channel `chmax - 1 - k` -/
+  | subNeg (k : Nat)
   | unsub (q : Nat)
   | setEnabled (v : List Bool)
+  /-- `stream_stop(); stream_start()`: a new stream thread, `_reset_stats()` -/
+  | restart
   deriving DecidableEq, Repr
 
 /-- `que.put(group)` -/
@@ -49,21 +96,35 @@ def fanout (enabled : List Bool) (subs : List (List Nat)) (ss : List Smp) :
     let qs' := if g.isEmpty then qs else (subs.getD c []).foldl (fun acc q => putOn acc q g) qs
     fanout enabled subs ss (c + 1) k qs'
 
+/-- `self._sub_q[ch].append(Queue())` for a valid list index `ch` -/
+def subAt (s : St) (ch : Nat) : St :=
+  { s with subs := s.subs.set ch (s.subs.getD ch [] ++ [s.nextQ]),
+           queues := s.queues ++ [(s.nextQ, [])], nextQ := s.nextQ + 1 }
+
 def step (s : St) : Op → Except Err St
   | .frame flags ss =>
-    if ss.any (fun x => x.chan ≥ s.enabled.length) then .error .assertion   -- decoder: unknown channel
+    if s.dead then .ok s                                               -- nobody processes frames any more
+    else if ss.any (fun x => x.chan ≥ s.enabled.length) then
+      .ok { s with dead := true }                                      -- decoder: `assert chan` — the thread ends
     else
       .ok { s with ovf := if flags % 2 = 1 then s.ovf + 1 else s.ovf,
                    queues := fanout s.enabled s.subs ss 0 s.enabled.length s.queues }
-  | .sub ch =>
-    if ch < s.subs.length then
-      .ok { s with subs := s.subs.set ch (s.subs.getD ch [] ++ [s.nextQ]),
-                   queues := s.queues ++ [(s.nextQ, [])], nextQ := s.nextQ + 1 }
-    else .error .indexError
+  | .badFrame => .ok { s with dead := true }
+  | .sub ch => if ch < s.subs.length then .ok (subAt s ch) else .error .indexError
+  | .subNeg k => if k < s.subs.length then .ok (subAt s (s.subs.length - 1 - k)) else .error .indexError
   | .unsub q => .ok { s with subs := s.subs.map fun l => l.erase q }
   | .setEnabled v => if v.length = s.enabled.length then .ok { s with enabled := v } else .error .valueError
+  | .restart => .ok { s with dead := false, ovf := 0 }
 
-/-- run a history; an op that raises leaves the state unchanged (the call failed) -/
+/-- one op of a history; an application call that raises leaves the state unchanged (the call failed;
+    a frame never "fails": it is processed, or it kills the stream thread, or — thread dead — it is not
+    processed at all) -/
+def apply (s : St) (op : Op) : St :=
+  match step s op with
+  | .ok s' => s'
+  | .error _ => s
+
+/-- run a history -/
 def run (s : St) : List Op → St
   | [] => s
   | op :: r => match step s op with
@@ -75,6 +136,141 @@ def received (s : St) (q : Nat) : List Nat :=
   match s.queues.find? (·.1 = q) with
   | some e => e.2.flatten
   | none => []
+
+/-- a frame the decoder accepts for a device with `n` channels -/
+def Op.wfFrame (n : Nat) : Op → Bool
+  | .frame _ ss => ss.all (fun x => x.chan < n)
+  | _ => false
+
+/-- a frame the decoder rejects (it ends the stream thread): an unknown channel id, or a payload
+    it cannot unpack -/
+def Op.kills (n : Nat) : Op → Bool
+  | .frame _ ss => ss.any (fun x => x.chan ≥ n)
+  | .badFrame => true
+  | _ => false
+
+/-- the samples of channel `c` a frame carries -/
+def Op.samplesOf (c : Nat) : Op → List Nat
+  | .frame _ ss => (ss.filter (·.chan = c)).map (·.val)
+  | _ => []
+
+/-! ### numbering the decoded samples of the stream frames the receive thread routes -/
+
+/-- identification of samples: the `j`-th sample gets `val = k + j` -/
+def tagged (k : Nat) : List Stream.Sample → List Smp
+  | [] => []
+  | s :: r => ⟨s.chan, k⟩ :: tagged (k + 1) r
+
+/-- what the stream thread makes of the frames on `_q_stream`, in order: `stream_data()` decodes each
+    (`Stream.frameStreamDecode`); a decode error is a raise inside the thread (`badFrame`), a frame
+    without payload yields `None` (nothing happens: `frame 0 []`), everything else a `frame` whose
+    samples are numbered consecutively across frames starting at `k` -/
+def opsOfFrames (layout : List Stream.Chan) (user : List Stream.UserType) (k : Nat) :
+    List Serial.Frame → List Op
+  | [] => []
+  | fr :: r =>
+    match Stream.frameStreamDecode layout user fr with
+    | .ok (some (fl, ss)) => .frame fl (tagged k ss) :: opsOfFrames layout user (k + ss.length) r
+    | .ok none => .frame 0 [] :: opsOfFrames layout user k r
+    | .error _ => .badFrame :: opsOfFrames layout user k r
+
+/-- all samples of the decodable frames, in order (`tagged` position ↦ sample) -/
+def samplesOfFrames (layout : List Stream.Chan) (user : List Stream.UserType) :
+    List Serial.Frame → List Stream.Sample
+  | [] => []
+  | fr :: r =>
+    match Stream.frameStreamDecode layout user fr with
+    | .ok (some (_, ss)) => ss ++ samplesOfFrames layout user r
+    | _ => samplesOfFrames layout user r
+
+/-- the ops the stream thread will see for the frames `frs` the reassembly delivered to the receive
+    thread (in this order): `Route.queues` puts the STREAM frames, in arrival order, on `_q_stream` -/
+def arrivals (layout : List Stream.Chan) (user : List Stream.UserType) (hasDev : Bool)
+    (frs : List Serial.Frame) : List Op :=
+  opsOfFrames layout user 0 (Route.queues hasDev frs).2
+
+/-! ### the stream-frame queue and the stream thread loop -/
+
+/-- client state as far as delivery is concerned -/
+structure Sys where
+  fan : St
+  q : List Op := []            -- `_q_stream`, oldest first (each element stands for a frame: `frame` / `badFrame`)
+  started : Bool := false      -- `_stream_started`: `stream_start()` has created the stream thread
+  deriving DecidableEq, Repr
+
+/-- after `connect()` to a device reporting the enable vector `en`: no stream thread yet, `_q_stream`
+    drained by the connect -/
+def Sys.init (en : List Bool) : Sys := { fan := St.initEn en }
+
+inductive Ev where
+  /-- the receive thread puts a stream frame on `_q_stream` -/
+  | arrive (f : Op)
+  /-- one iteration of the stream thread's loop (`_stream_thread()` is called once; with an empty
+      `_q_stream` the call times out after 1 s and does nothing) -/
+  | iter
+  | sub (ch : Nat)
+  | subNeg (k : Nat)
+  | unsub (q : Nat)
+  | setEnabled (v : List Bool)
+  /-- `stream_start()` -/
+  | start
+  /-- `stream_stop()` (returns after the stream thread has been joined) -/
+  | stop
+  deriving DecidableEq, Repr
+
+/-- the thread exists and has not died: the next loop iteration calls `_stream_thread()` -/
+def Sys.alive (s : Sys) : Bool := s.started && !s.fan.dead
+
+/-- the fan-out op an event performs in state `s` (`none`: it performs none) -/
+def evOp (s : Sys) : Ev → Option Op
+  | .arrive _ => none
+  | .iter => if s.alive then s.q.head? else none
+  | .sub ch => some (.sub ch)
+  | .subNeg k => some (.subNeg k)
+  | .unsub q => some (.unsub q)
+  | .setEnabled v => some (.setEnabled v)
+  | .start => if s.started then none else some .restart
+  | .stop => none
+
+def sysStep (s : Sys) (e : Ev) : Sys :=
+  let fan' := match evOp s e with
+    | some op => apply s.fan op
+    | none => s.fan
+  match e with
+  | .arrive f => { s with q := s.q ++ [f] }
+  | .iter => if s.alive then { s with q := s.q.tail, fan := fan' } else s
+  | .start => { s with fan := fan', started := true }
+  | .stop => { s with started := false }
+  | _ => { s with fan := fan' }
+
+def sysRun (s : Sys) : List Ev → Sys
+  | [] => s
+  | e :: r => sysRun (sysStep s e) r
+
+/-- the fan-out ops a history performs, in order -/
+def sysOps (s : Sys) : List Ev → List Op
+  | [] => []
+  | e :: r => (evOp s e).toList ++ sysOps (sysStep s e) r
+
+/-- the frame the stream thread takes from `_q_stream` in this event, if any -/
+def consumedBy (s : Sys) : Ev → List Op
+  | .iter => (evOp s .iter).toList
+  | _ => []
+
+/-- the frame the receive thread puts on `_q_stream` in this event, if any -/
+def arrivedBy : Ev → List Op
+  | .arrive f => [f]
+  | _ => []
+
+/-- the frames the stream thread takes from `_q_stream` during a history, in order -/
+def sysConsumed (s : Sys) : List Ev → List Op
+  | [] => []
+  | e :: r => consumedBy s e ++ sysConsumed (sysStep s e) r
+
+/-- the frames the receive thread puts on `_q_stream` during a history, in order -/
+def arrived : List Ev → List Op
+  | [] => []
+  | e :: r => arrivedBy e ++ arrived r
 
 end Fanout
 end Nxs
